@@ -252,10 +252,8 @@ func (s *listSubj[T]) Step(op Op, o *Oracle) {
 		s.l.Swap(a[0], a[1])
 	case "Sort", "SortRev":
 		before := slices.Clone(s.m)
-		cmp := s.d.Cmp
-		if op.N == "SortRev" {
-			cmp = func(a, b T) int { return s.d.Cmp(b, a) }
-		}
+		// (both comparators are closures of one factory: they share a code pointer and differ in what they captured)
+		cmp := dirOf(s.d.Cmp, op.N == "SortRev")
 		s.l.Sort(cmp)
 		// ties: any non-decreasing permutation of the previous content is legal; the model adopts it
 		got := s.l.Values()
